@@ -116,7 +116,7 @@ def programs(draw, max_sub=6, max_rxn=6):
     keys = pool[:ns]
     order = draw(st.permutations(keys))
     nr = draw(st.integers(1, max_rxn))
-    thermal = draw(st.integers(0, 99)) >= 62
+    thermal = draw(st.integers(0, 99)) >= 55
     rxns = [_free_reaction(draw, keys) for _ in range(nr)]
     # every substance must occur in some reaction (both builders reject isolated substances)
     used = set()
@@ -587,8 +587,9 @@ def composed_systems(draw, max_rxn=6, broken=None, kinetics=False):
     subs = [s for s in subs if s["key"] in used]
     subs = list(draw(st.permutations(subs)))
     case = {"kind": kind, "subs": subs, "rxns": rxns, "cls": "balanced", "broken_at": None,
-            # how the substances reach the constructor: OrderedDict of Substance objects | list of keys + from_formula
-            "route": draw(st.sampled_from(["objects", "objects", "keys"]))}
+            # how the system is constructed: OrderedDict of Substance objects | list of keys + from_formula |
+            # EqSystem of Equilibrium objects (only used by the admission check)
+            "route": draw(st.sampled_from(["objects", "objects", "keys", "eqsys"]))}
     do_break = (draw(st.integers(0, 9)) >= 4) if broken is None else broken
     if do_break:
         case["cls"], case["broken_at"] = _break(draw, subs, rxns)
